@@ -147,7 +147,7 @@ class Mode:
         from vf import implicit
 
         rng = rng_for(10, spec["case"], 1)
-        ispec = implicit.gen(rng, "quick", n_par=1)
+        ispec = implicit.gen(rng, "quick", n_par=int(rng.choice([1, 1, 2])))
         ispec["N"] = max(min(ispec["N"], 9), sum(ispec["sizes"]) + 2)
         c = implicit.build(ispec)
         Hi, _ = implicit.hamiltonians(c, sparse_input=bool(rng.integers(0, 2)))
@@ -156,10 +156,10 @@ class Mode:
         if ispec["fd"]:
             kw["fully_diagonalize"] = (0,)
         self.inputs = [Hi, vecs]
-        self.nb, self.n_par = len(c["sizes"]) + 1, 1
-        self.orders = [(0,), (1,), (2,)]
+        self.nb, self.n_par = len(c["sizes"]) + 1, ispec["n_par"]
+        self.orders = [(0,), (1,), (2,)] if ispec["n_par"] == 1 else [(a, b) for a in range(3) for b in range(3) if a + b <= 2]
         self.mk = lambda: block_diagonalize(Hi, subspace_eigenvectors=vecs, **kw)
-        self.sig = ["implicit", ispec["N"], ispec["complex"], c["sizes"], c["hermitian"], ispec["fd"]]
+        self.sig = ["implicit", ispec["N"], ispec["complex"], c["sizes"], c["hermitian"], ispec["fd"], ispec["n_par"], bool(ispec.get("mixed_terms"))]
         self.sample = dict(mode="implicit", **{k: v for k, v in ispec.items()})
 
 
